@@ -90,7 +90,15 @@ def py_issue(w, cfg, op, call):
     """Issue one op on an open Python writer.  Returns ('ok', ret) or ('err', exc)."""
     import numpy as np
 
-    arr = rfmodel.call_array(cfg, call, op["len"])
+    arr = rfmodel.call_array(cfg, op.get("cid", call), op["len"])
+    if op.get("raw"):
+        # deliberately malformed index arguments are passed exactly as generated (lists may differ in length)
+        try:
+            with quiet_fds():
+                ret = w.rf_write_blocks(arr, op["g"], op["d"])
+            return ("ok", int(ret))
+        except Exception as e:
+            return ("err", "%s: %s" % (type(e).__name__, str(e)[:200]))
     try:
         with quiet_fds():
             if op["op"] == "w":
@@ -128,6 +136,8 @@ def script_lines(cfg, ops, chdir):
         chdir, cfg["kind"], cfg["size"], cfg["order"], cfg["S"], cfg["F"], cfg["start"], cfg["n"], cfg["d"],
         cfg.get("uuid", "verif"), cfg["comp"], cfg["checksum"], cfg["cplx"], cfg["nsub"], cfg["cont"], cfg["salt"])]
     for op in ops:
+        if "cid" in op:
+            lines.append("cid %d" % op["cid"])
         if op["op"] == "w":
             lines.append("w %d %d" % (op["idx"], op["len"]))
         elif op["op"] == "n":
@@ -296,3 +306,64 @@ def merge_ranges(ranges):
         else:
             out.append([s, ln])
     return [tuple(x) for x in out]
+
+
+class DriverSession:
+    """Interactive drf_driver process: one op at a time, so the harness can look at the tree in between."""
+
+    def __init__(self, workdir, asan=False):
+        ovl = build.ensure(want=("driver", "asan") if asan else ("driver",))
+        exe = os.path.join(ovl, "bin", "drf_driver_asan" if asan else "drf_driver")
+        self.log = os.path.join(workdir, "session-log.txt")
+        env = dict(os.environ)
+        env["ASAN_OPTIONS"] = "detect_leaks=0:abort_on_error=0:exitcode=97"
+        env["UBSAN_OPTIONS"] = "halt_on_error=1:exitcode=98:print_stacktrace=1"
+        self.errf = open(os.path.join(workdir, "session-stderr.txt"), "w+")
+        self.p = subprocess.Popen([exe, "-", self.log], stdin=subprocess.PIPE, stdout=subprocess.PIPE,
+                                  stderr=self.errf, env=env, text=True, bufsize=1)
+
+    def send(self, line):
+        """Send one script line, return dict(rc, gi, last_file, last_dir) or None if the driver died."""
+        try:
+            self.p.stdin.write(line + "\n")
+            self.p.stdin.flush()
+        except BrokenPipeError:
+            return None
+        out = self.p.stdout.readline()
+        if not out.startswith("END"):
+            return None
+        parts = out.rstrip("\n").split(" ")
+        rest = " ".join(parts[4:])
+        lf, _, ld = rest.partition("|")
+        return {"rc": int(parts[2]), "gi": int(parts[3]), "last_file": lf, "last_dir": ld}
+
+    def op(self, op):
+        if "cid" in op:
+            if self.send("cid %d" % op["cid"]) is None:
+                return None
+        if op["op"] in ("w", "n"):
+            return self.send("%s %d %d" % (op["op"], op["idx"], op["len"]))
+        k = len(op["g"])
+        return self.send("b %d %d %s" % (op["len"], k, " ".join("%d %d" % (op["g"][i], op["d"][i]) for i in range(k))))
+
+    def init(self, cfg, chdir):
+        return self.send(script_lines(cfg, [], chdir)[0])
+
+    def close(self):
+        r = self.send("close")
+        return r
+
+    def finish(self):
+        try:
+            self.p.stdin.close()
+        except Exception:
+            pass
+        try:
+            rc = self.p.wait(timeout=60)
+        except subprocess.TimeoutExpired:
+            self.p.kill()
+            rc = -999
+        self.errf.seek(0)
+        err = self.errf.read()
+        self.errf.close()
+        return rc, err
